@@ -52,7 +52,12 @@ def run1(m, sc):
     if n != 1:
         return 'SKIP(find matches %d times)' % n, ''
     try:
-        open(path, 'w').write(src.replace(m['find'], m['replace']))
+        new = src.replace(m['find'], m['replace'])
+        for f2, r2 in m.get('also') or []:
+            if new.count(f2) != 1:
+                return 'SKIP(also-pattern matches %d times)' % new.count(f2), ''
+            new = new.replace(f2, r2)
+        open(path, 'w').write(new)
         env = dict(os.environ, VERIF_REPO=os.path.join(sc, 'repo'), VERIF_EVIDENCE_DIR=os.path.join(sc, 'ev'), VERIF_TIER='quick')
         r = subprocess.run([os.path.join(VERIF, 'check'), m['prop'], '--tier', 'quick'], cwd=VERIF, stdout=subprocess.PIPE,
                            stderr=subprocess.STDOUT, text=True, env=env)
